@@ -347,7 +347,11 @@ let cmd_loop (_param : string) (arg : string) (_impl : string) : string * string
           fails := (if r = "ERR" then "C18:success-without-a-stop-request" else "C18:stop-request-did-not-yield-success") :: !fails;
         if not (starts_with "PANIC" tail) && _impl <> "PANIC" then begin
           let d02 = differs p02 in
-          let d15 = differs p15 in
+          (* C15 is about WHICH instance handles a flow and WHICH programs a datapath is sent; when and how
+             often they are sent is C05's *)
+          let only_new it = match toks it with "NEW" :: _ -> p15 it | _ -> None in
+          let only_inst it = match toks it with "INSTALL" :: _ -> Some it | _ -> None in
+          let d15 = differs only_new || List.sort_uniq compare (proj only_inst items) <> List.sort_uniq compare (proj only_inst model_items) in
           let d05 = differs p05 in
           (* a command that went somewhere else, as opposed to one that should (not) have been sent *)
           let d09 = differs p09 && List.length (proj p09 items) = List.length (proj p09 model_items) in
